@@ -19,7 +19,7 @@ _INTERIOR_OPS = [op for op in mutate.OPS if op not in ("append-junk",)]
 
 @st.composite
 def unit(draw: t.Any, side: str, nprep: int, idx: int) -> t.Any:
-    kind = draw(st.sampled_from(["valid", "valid", "valid-forms", "valid-big", "interior", "interior", "interior", "paged", "interior-random", "nonseq-outer"]))
+    kind = draw(st.sampled_from(["valid", "valid", "valid-forms", "valid-big", "valid-any", "interior", "interior", "interior", "paged", "interior-random", "nonseq-outer"]))
     rid = draw(st.integers(0, nprep - 1)) if nprep else None
     if side == "server":
         base = gens.memo("c06.server", lambda: gens.message(kinds=["searchRequest", "extendedReq"], filt=gens.filters(max_leaves=4), ids=st.just(0))).map(
@@ -39,6 +39,11 @@ def unit(draw: t.Any, side: str, nprep: int, idx: int) -> t.Any:
         else:
             m = {"kind": "searchResEntry", "id": 0, "controls": [], "name": "cn=big", "attributes": [("a", [b"\x00" * size])]}
         return ("valid", m, rid)
+    if kind == "valid-any":
+        # a well-formed message of ANY kind with any id (0, unknown, in progress): wrong for the conversation perhaps,
+        # but a complete unit - it is returned or reported like every other one
+        m = draw(gens.memo("c06.valid-any", lambda: gens.message(filt=gens.filters(max_leaves=3), ids=st.sampled_from([0, 0, 0, 1, 2, 3, 7, 1000, -1]))))
+        return ("valid-any", m, draw(st.sampled_from([None, None, rid])))
     if kind == "paged":
         m = dict(draw(base))
         v = draw(st.sampled_from(_PAGED_VALUES))
@@ -111,6 +116,8 @@ def unit_bytes(u: t.Any, ids: t.List[int]) -> t.Tuple[bytes, str, bool]:
     data = rfc4511.encode(m)
     if k == "valid":
         return data, "valid", False
+    if k == "valid-any":
+        return data, f"valid-any:{m['kind']}", True
     if k == "valid-forms":
         return rfc4511.encode(m, rfc4511.Knobs(u[3], kinds=("length",))), "valid-forms", False
     if k == "paged":
